@@ -25,14 +25,14 @@ fn scenario<C: MlsConfig>(rng: &mut Rng, mk: &dyn Fn(&Setup, &Handles, mls_rs::i
     use mls_rs::group::{CommitEffect, ReceivedMessage, Sender};
     use mls_rs::mls_rs_codec::MlsEncode;
     let n = rng.range(3, 5) as usize;
-    let mut w: World<C> = new_world(Default::default(), "/tmp/vharness-scratch-c10");
+    let mut w: World<C> = new_world(Default::default(), &crate::util::scratch("c10"));
     let (ext_id, ext_sk) = make_identity("external-sender", 1);
     let mut gce = ExtensionList::new();
     gce.set_from(ExternalSendersExt::new(vec![ext_id.clone()])).unwrap();
     for i in 0..n {
         let name = ((b'A' + i as u8) as char).to_string();
         let s = Setup::new(&name);
-        let h = handles(&s, &w.crypto_log, "/tmp/vharness-scratch-c10");
+        let h = handles(&s, &w.crypto_log, &crate::util::scratch("c10"));
         let (id, sk) = make_identity(&name, 1);
         let client = mk(&s, &h, id, sk);
         w.members.push(Member { identity: name.as_bytes().to_vec(), setup: s, h, client, group: None, ghosts: vec![], wrote: false });
@@ -114,7 +114,7 @@ fn scenario<C: MlsConfig>(rng: &mut Rng, mk: &dyn Fn(&Setup, &Handles, mls_rs::i
     let mut outsider = None;
     if xr.chance(1, 2) {
         let s = Setup::new("Z");
-        let h = handles(&s, &w.crypto_log, "/tmp/vharness-scratch-c10");
+        let h = handles(&s, &w.crypto_log, &crate::util::scratch("c10"));
         let (id, sk) = make_identity("Z", 1);
         let client = mk(&s, &h, id, sk);
         let kp = client.generate_key_package_message(Default::default(), Default::default(), None).unwrap();
@@ -326,7 +326,7 @@ fn scenario<C: MlsConfig>(rng: &mut Rng, mk: &dyn Fn(&Setup, &Handles, mls_rs::i
             out.cover.insert(format!("commit-ok:applied=[{}]", expected.join(",")));
         }
     }
-    let _ = std::fs::remove_dir_all("/tmp/vharness-scratch-c10");
+    let _ = std::fs::remove_dir_all(&crate::util::scratch("c10"));
 }
 
 
@@ -576,7 +576,7 @@ fn lifetime_scenario(rng: &mut Rng, out: &mut Out, qa: &mut QA) {
 /// committer that still has the epoch commits it.
 fn stale_resumption_psk_scenario<C: MlsConfig>(rng: &mut Rng, mk: &dyn Fn(&Setup, &Handles, mls_rs::identity::SigningIdentity, mls_rs::crypto::SignatureSecretKey) -> mls_rs::Client<C>, out: &mut Out) {
     let log: SharedCryptoLog = Default::default();
-    let mut w: World<C> = new_world(log, "/tmp/vharness-scratch-c10x");
+    let mut w: World<C> = new_world(log, &crate::util::scratch("c10x"));
     for (name, ret) in [("A", 1usize), ("B", 5), ("C", 5)] {
         let mut s = Setup::new(name);
         s.retention = ret;
@@ -663,7 +663,7 @@ fn stale_resumption_psk_scenario<C: MlsConfig>(rng: &mut Rng, mk: &dyn Fn(&Setup
             out.fails.push(format!("stale-psk: a committer that retains the epoch cannot commit the resumption PSK: {}", err_class(&e)));
         }
     }
-    let _ = std::fs::remove_dir_all("/tmp/vharness-scratch-c10x");
+    let _ = std::fs::remove_dir_all(&crate::util::scratch("c10x"));
 }
 
 /// identity provider of the credential-type scenario: basic credentials and one custom credential type; `types` is what the
@@ -854,6 +854,151 @@ fn credential_type_scenario(rng: &mut Rng, out: &mut Out) {
     }
 }
 
+/// "Rejected when received from someone else": member A re-issues its own (empty, public) commit with further proposals put in
+/// — by reference (everybody has cached the proposal messages) or by value — WITHOUT filtering, as a dishonest or buggy committer
+/// would.  For every rule-violating set the receivers C and D must refuse the commit on proposal-rule grounds, i.e. before they
+/// get to the update path, the key schedule or the confirmation tag (which the hook cannot fit to the new proposals: a rejection
+/// for one of those "late" reasons means the proposal rules let the set through).  A valid extra proposal is the control.
+fn received_offenders_scenario<C: MlsConfig>(rng: &mut Rng, mk: &dyn Fn(&Setup, &Handles, mls_rs::identity::SigningIdentity, mls_rs::crypto::SignatureSecretKey) -> mls_rs::Client<C>, out: &mut Out) {
+    use mls_rs::verif::insider::InsiderEdit;
+    let log: SharedCryptoLog = Default::default();
+    let mut w: World<C> = new_world(log, &crate::util::scratch("c10x"));
+    for name in ["A", "B", "C", "D", "E"] {
+        let s = Setup::new(name);
+        let h = handles(&s, &w.crypto_log, &w.scratch);
+        let (id, sk) = make_identity(&s.name, s.suite);
+        let client = mk(&s, &h, id, sk);
+        w.members.push(Member { identity: s.name.as_bytes().to_vec(), setup: s, h, client, group: None, ghosts: vec![], wrote: false });
+    }
+    let Ok(g) = w.members[0].client.create_group(Default::default(), Default::default(), None) else { return };
+    w.members[0].group = Some(g);
+    let kps: Vec<MlsMessage> = (1..4).map(|i| w.members[i].client.generate_key_package_message(Default::default(), Default::default(), None).unwrap()).collect();
+    let (_, o) = w.with_group(0, |g| {
+        let mut b = g.commit_builder();
+        for kp in kps {
+            b = b.add_member(kp)?;
+        }
+        b.build()
+    });
+    let Some(o) = o else { return };
+    w.with_group(0, |g| g.apply_pending_commit());
+    for i in 1..4 {
+        match o.welcome_messages.iter().find_map(|wm| w.members[i].client.join_group(None, wm, None).ok()) {
+            Some((g, _)) => w.members[i].group = Some(g),
+            None => return,
+        }
+    }
+    // one commit by somebody else so that parents exist and A is not the last committer
+    let c0 = 1 + rng.below(3) as usize;
+    let (_, o) = w.with_group(c0, |g| g.commit(vec![]));
+    let Some(o) = o else { return };
+    w.with_group(c0, |g| g.apply_pending_commit());
+    for i in 0..4 {
+        if i != c0 {
+            let m = o.commit_message.clone();
+            w.with_group(i, |g| g.process_incoming_message(m));
+        }
+    }
+    let leaf = |w: &World<C>, i: usize| w.group(i).current_member_index();
+    let (la, ld) = (leaf(&w, 0), leaf(&w, 3));
+    // the offending sets: (name, [(proposer, proposal message, by reference?)], must be refused?)
+    type Item = (usize, MlsMessage, bool);
+    let mut sets: Vec<(&str, Vec<Item>, bool)> = vec![];
+    let prop = |w: &mut World<C>, i: usize, f: &dyn Fn(&mut mls_rs::Group<C>) -> Result<MlsMessage, mls_rs::error::MlsError>| -> Option<MlsMessage> {
+        // on a clone: the proposer's own cache is not needed, receivers get the message itself
+        let mut g = w.group(i).clone();
+        f(&mut g).ok()
+    };
+    if let Some(m) = prop(&mut w, 1, &|g| g.propose_remove(la, vec![])) {
+        sets.push(("remove-of-the-committer", vec![(1, m, true)], true));
+    }
+    if let Some(m) = prop(&mut w, 0, &|g| g.propose_update(vec![])) {
+        sets.push(("update-by-the-committer", vec![(0, m, true)], true));
+    }
+    if let Some(m) = prop(&mut w, 1, &|g| g.propose_update(vec![])) {
+        sets.push(("update-by-value", vec![(1, m, false)], true));
+    }
+    if let (Some(m1), Some(m2)) = (prop(&mut w, 1, &|g| g.propose_remove(ld, vec![])), prop(&mut w, 2, &|g| g.propose_remove(ld, vec![]))) {
+        sets.push(("two-removes-of-one-leaf", vec![(1, m1.clone(), true), (2, m2, true)], true));
+        // the control: one valid Remove by reference passes the proposal rules
+        sets.push(("control-valid-remove", vec![(1, m1, true)], false));
+    }
+    if let (Some(m1), Some(m2)) = (prop(&mut w, 1, &|g| g.propose_remove(ld, vec![])), prop(&mut w, 3, &|g| g.propose_update(vec![]))) {
+        sets.push(("remove-and-update-of-one-leaf", vec![(1, m1, true), (3, m2, true)], true));
+    }
+    if let Ok(kp) = w.members[2].client.generate_key_package_message(Default::default(), Default::default(), None) {
+        if let Some(m) = prop(&mut w, 1, &|g| g.propose_add(kp.clone(), vec![])) {
+            sets.push(("add-of-a-current-member", vec![(1, m.clone(), true)], true));
+            sets.push(("add-of-a-current-member-by-value", vec![(1, m, false)], true));
+        }
+    }
+    if let Ok(kp) = w.members[4].client.verif_generate_key_package_unchecked(|c| c.proposals.push(mls_rs::group::proposal::ProposalType::ADD), None) {
+        if let Some(m) = prop(&mut w, 1, &|g| g.propose_add(kp.clone(), vec![])) {
+            sets.push(("add-with-default-value-listed", vec![(1, m.clone(), true)], true));
+            sets.push(("add-with-default-value-listed-by-value", vec![(1, m, false)], true));
+        }
+    }
+    if let (Some(m1), Some(m2)) = (
+        prop(&mut w, 1, &|g| g.propose_group_context_extensions(ExtensionList::new(), vec![])),
+        prop(&mut w, 2, &|g| g.propose_group_context_extensions(ExtensionList::new(), vec![])),
+    ) {
+        sets.push(("two-group-context-extensions", vec![(1, m1, true), (2, m2, true)], true));
+    }
+    if let (Some(m1), Some(m2)) = (
+        prop(&mut w, 1, &|g| g.propose_reinit(None, mls_rs::ProtocolVersion::MLS_10, mls_rs::CipherSuite::from(1u16), Default::default(), vec![])),
+        prop(&mut w, 2, &|g| g.propose_update(vec![])),
+    ) {
+        sets.push(("reinit-next-to-an-update", vec![(1, m1, true), (2, m2, true)], true));
+    }
+    let a = w.group(0).clone();
+    let Ok(base) = a.clone().commit(vec![]) else { return };
+    // reasons that come AFTER the proposal rules (path, key schedule, tag): the hook keeps A's path and tag of the empty commit
+    const LATE: [&str; 12] = ["InvalidConfirmationTag", "CryptoProviderError", "ParentHashMismatch", "WrongPathLen", "PubKeyMismatch", "TreeHashMismatch", "UpdateErrorNoSecretKey", "LcaNotFoundInDirectPath", "SameHpkeKey", "ExpectedNode", "InvalidNodeIndex", "UnexpectedEmptyNode"];
+    for (name, items, must_refuse) in sets {
+        let by_reference: Vec<MlsMessage> = items.iter().filter(|x| x.2).map(|x| x.1.clone()).collect();
+        let by_value: Vec<MlsMessage> = items.iter().filter(|x| !x.2).map(|x| x.1.clone()).collect();
+        let Ok(forged) = a.verif_resign_commit(&base.commit_message, &InsiderEdit::WithProposals { by_reference: by_reference.clone(), by_value }) else {
+            out.cover.insert(format!("recv-offender:{name}:not-built"));
+            continue;
+        };
+        for r in [2usize, 3] {
+            let mut g = w.group(r).clone();
+            // the receiver has seen the referenced proposals (its own ones are in its cache only if it really sent them: here
+            // they were built on clones, so it is told about them like everybody else)
+            let mut cached = true;
+            for (from, m, is_ref) in &items {
+                if *is_ref && g.process_incoming_message(m.clone()).is_err() && *from != r {
+                    cached = false;
+                }
+            }
+            if !cached {
+                out.cover.insert(format!("recv-offender:{name}:proposal-not-cached"));
+                continue;
+            }
+            out.cases += 1;
+            let before = g.current_epoch();
+            let res = std::panic::catch_unwind(std::panic::AssertUnwindSafe(|| g.process_incoming_message(forged.clone())));
+            let class = match &res {
+                Err(_) => "PANIC".to_string(),
+                Ok(Ok(_)) => "ok".to_string(),
+                Ok(Err(e)) => err_class(e),
+            };
+            out.cover.insert(format!("recv-offender:{name}:{class}"));
+            if class == "PANIC" {
+                out.fails.push(format!("received offender {name}: member {r} panics"));
+            } else if must_refuse && class == "ok" {
+                out.fails.push(format!("received offender {name}: member {r} accepted a commit that carries it"));
+            } else if must_refuse && LATE.contains(&class.as_str()) {
+                out.fails.push(format!("received offender {name}: member {r} let the proposal set through the proposal rules and stopped only later ({class})"));
+            }
+            if class != "ok" && g.current_epoch() != before {
+                out.fails.push(format!("received offender {name}: member {r} rejected the commit but changed epoch"));
+            }
+        }
+    }
+    let _ = std::fs::remove_dir_all(&crate::util::scratch("c10x"));
+}
+
 pub fn run(o: &Opts) -> i32 {
     crate::util::quiet_panics();
     let dir = o.str("out", "/verif/work/c10");
@@ -870,6 +1015,7 @@ pub fn run(o: &Opts) -> i32 {
         gce_scenario(&mut r, &mut out);
         lifetime_scenario(&mut r, &mut out, &mut qa);
         stale_resumption_psk_scenario(&mut r, &mk, &mut out);
+        received_offenders_scenario(&mut r, &mk, &mut out);
         credential_type_scenario(&mut r, &mut out);
         credential_type_scenario(&mut r, &mut out);
     }
